@@ -78,6 +78,26 @@ P = {
    note=SAN + "TAI-UTC before 1972 is the table's first value. " + TB, ref="3 C14"),
 }
 
+P.update({
+ "C09": dict(cat="exploration", tech="round-trip monitor (print -> parse -> print through the real formatter/parser via dutdrv) + locale-file oracle + ASan/UBSan",
+   text="Seeded grammar of formats (192 shapes x 100 instances) over 40 values each: whatever dt_strfdt prints under a format "
+        "that determines the value must be read back by dt_strpdt under the same format to the same value and print again "
+        "to the same bytes; the per-calendar default formats; month/weekday names of all 274 shipped locales printed with "
+        "--locale and read with --from-locale. The calendar oracle decides whether a format determines the value.",
+   note=SAN + "formats with non-parseable specifiers (%q %Q) or ambiguous adjacency are outside the statement. " + TB, ref="3 C09"),
+ "C10": dict(cat="exploration", tech="sanitizer monitor (ASan + UBSan + invariant probes) over seeded hostile inputs, with totality/bounded-progress oracle",
+   text="Hostile formats, texts and durations (truncated/doubled directives, 255/256/257-byte boundaries, huge numbers, "
+        "binary bytes, every special-format name, near-miss names) through every parser/formatter entry of the library "
+        "(dutdrv P/F/R/A/C/U/L/B/V requests, small and exact caller buffers) and through all 10 tools' option surfaces; "
+        "every process must end with a normal exit status inside its CPU budget and without a sanitizer/probe report.",
+   note=SAN + "a slow-but-terminating request is re-run with a larger budget before it is called a hang. " + TB, ref="3 C10"),
+ "C15": dict(cat="exploration", tech="reference-model monitor (arithmetic-progression oracle) over complete dseq outputs + bounded-progress watchdog + ASan/UBSan",
+   text="dseq FIRST [INC] LAST for dates in ymd/ywd/ymcw/yd, times and date-times; INC in d/w/mo/y/b/h/m/s, compound (1h30m, "
+        "1d12h), >= 24h, zero, wrong direction and inapplicable units; 8 skip sets; --compute-from-last; guessed increments. "
+        "The whole output is compared line by line with {FIRST + k*INC}; an output beyond the CPU/size cap is 'endless'.",
+   note=SAN + "time bounds with FIRST == LAST, compound month increments and one-argument forms are not judged. " + TB, ref="3 C15"),
+})
+
 NOT_YET = {}
 
 
